@@ -35,9 +35,55 @@ CHECKS = {
         text='Sequential inductive step on the real RangeLock + std::set header code: from every state reachable by two (quick) / three (thorough) symbolic try_lock_wait2 calls, one of '
              'try_lock_wait2 / try_lock_wait / adjust_range / unlock(handle) / unlock(range) with symbolic 64-bit arguments (zero length, saturating end, nested, adjacent), then a symbolic '
              'probe: a granted range never shares a byte with a held one, a non-conflicting request is granted, the conflict report of try_lock_wait lies inside a held range.',
-        note='Covers the disjointness half of C18 only; the wake-up half (a waiter proceeds after unlock) needs the concurrent engine and is not claimed yet.  libstdc++ red-black '
+        note='Sequential jobs cover the disjointness half; the wake-up half (a waiter on a conflicting range proceeds after unlock) runs on the contract-level thread engine in the thorough tier (too slow for quick).  libstdc++ red-black '
              'rebalancing replaced by unbalanced-BST stand-ins with the same ordering contract; cv wait/notify are sequential stubs.  Found and fixed (b3d9cd8): locking the same empty range twice corrupted the index.',
         technique=TECH, design_ref='DESIGN.md §3 C18'),
+    'C01': dict(
+        text='(a) spinlock / ticket_spinlock: mutual exclusion for every interleaving of 2 threads x 2 rounds and 3 threads x 1 round of the real lock/try_lock/unlock, under SC and x86-TSO '
+             '(native CBMC threads).  (b) photon mutex on the kernel contract K: 2 lockers (optionally one yield-retry, optionally an interrupter) with symbolic timeouts (never / finite / expired): at most one '
+             'thread inside, lock()==0 iff the caller is the owner, a failed lock leaves the caller out of every queue with errno ETIMEDOUT or the interrupter\'s, the mutex is free and its queue empty at '
+             'quiescence, no deadlock.  The real mutex::lock/try_lock/unlock, do_mutex_unlock, ScopedLockHead, indirect_lock, thread_interrupt are inlined into resumable thread entries; the solver picks the schedule.',
+        note='Bounded context switching: cooperative scheduling (switch at blocking calls / yields: what one vCPU can do) with symbolic timeout and interrupt events, <= 6-7 slices; pre-emption inside the primitive on '
+             'several vCPUs, qspinlock, recursive_mutex / seq_mutex and 3 lockers (thorough tier, 30 GB) are outside the quick claim.  K (rt/kcontract.h) stands for prepare_usleep / switch / resume_threads / '
+             'prelocked_thread_interrupt.  Spin iterations are cut by await-as-assume.',
+        technique='bounded-context-switch sequentialisation of the real code (ir2c --thread) + CBMC; native CBMC threads with --mm sc/tso for the spin locks', design_ref='DESIGN.md §3 C01, §7.1'),
+    'C02': dict(
+        text='photon semaphore on the kernel contract K (real wait_interruptible / signal / try_resume / try_subtract inlined): 1 waiter (demand 1..2, timeout never/finite/expired), 1 signaller (0..2 tokens), '
+             'initial count 0..2, in-order and out-of-order mode: tokens conserved at quiescence, a failed wait takes nothing, and in every stuck end state the blocked head waiter is not covered by the count (no lost wake-up).',
+        note='Only the 2-thread scenarios fit the memory budget on Layer B (9-10 GB, 4-6 min each); interrupter / two-waiter scenarios ran out of memory at 16-20 GB and are not claimed.  signal() from a plain OS thread and '
+             'destroy-after-wait need pre-emption inside the primitive: not covered.',
+        technique='bounded-context-switch sequentialisation of the real code (ir2c --thread) + CBMC', design_ref='DESIGN.md §3 C02, §7.1'),
+    'C03': dict(
+        text='condition_variable on K (real cvar_do_wait, waitq::resume_one/all, mutex or spinlock): a waiter that entered wait() before the notifier took the lock is found by notify_one (no lost notification), '
+             'wait() returns with the lock held, -1 only as ETIMEDOUT and only with a finite deadline, notify_all wakes every waiter without deadline and no more than were waiting; notify issued while holding or after releasing the lock (symbolic).',
+        note='1 waiter + 1 notifier with spinlock and with mutex (quick), 2 waiters + notify_all with a spinlock; cooperative scheduling.  The enqueue-before-deferred-unlock order of the real prepare_usleep holds by construction in K '
+             '(a Layer-A obligation that was not built).',
+        technique='bounded-context-switch sequentialisation of the real code (ir2c --thread) + CBMC', design_ref='DESIGN.md §3 C03, §7.1'),
+    'C05': dict(
+        text='Only the run-queue protection lock is checked: the real asymmetric_spinLock admits never both the owner vCPU (foreground) and a remote vCPU (background) for every interleaving of 1 foreground x 1-2 rounds and 1-2 background '
+             'try-lockers under sequential consistency (native CBMC threads).',
+        note='This is a small fragment of C05: thread_create / die / join / migrate / work stealing on the real run queue (the planned Layer-A one-step checks), thread pools and stack allocators are NOT covered.  Under CBMC\'s x86-TSO '
+             'model the same harness reports a mutual-exclusion violation (store->load reordering in foreground_lock); it could not be reproduced natively on this loaded host and is recorded in DESIGN 7.3 as a solver-only observation, not as a VIOLATION.',
+        technique='native CBMC threads over the IR-derived C of the real lock (all interleavings, SC)', design_ref='DESIGN.md §3 C05, §7.3'),
+    'C06': dict(
+        text='qrwlock (header-only, real lock/unlock/do_lock/try_wake/__trylock*/__unlock_*) with condition_variable and spinlock hand-over as contracts: 2 lockers in W/R, R/W and symbolic modes (3 symbolic lockers in thorough), '
+             'timeouts never/finite, every holder yields inside: a writer is alone, readers never share with a writer, a failed lock leaves lock_state free at quiescence, and no locker without deadline is left blocked (deadlock check).  '
+             'rwlock (mutex + cv real, on K) W/R scenario in addition.',
+        note='qrwlock\'s own protocol is real; cv / spinlock re-acquisition are the contracts of rt/ksync.h (their subject is C03).  Interrupts, try_lock and pre-emption between atomic steps on several vCPUs are outside.',
+        technique='bounded-context-switch sequentialisation of the real code (ir2c --thread) + CBMC', design_ref='DESIGN.md §3 C06, §7.1'),
+    'C07': dict(
+        text='MPMC, batch-MPMC and SPSC ring queues (capacity 2) as sequentialised threads that may be pre-empted before every atomic operation: 1 producer + 1 consumer, symbolic 64-bit start position (wrap-around included): '
+             'every successfully pushed element is popped exactly once (drain at the end), nothing else is returned, per-producer order, never more than capacity.',
+        note='Very small bound (1P+1C, 1-2 operations each, <= 5-6 slices, SC only) because pre-emptive sequentialisation costs 4 min / 4 GB per job; RingChannel notification protocol, more producers/consumers and TSO are outside.  '
+             'Retry loops are unwound 4 times without unwinding assertions (stated bound).',
+        technique='bounded-context-switch sequentialisation with pre-emption at atomic operations (ir2c --thread --cs-atomic-only) + CBMC', design_ref='DESIGN.md §3 C07, §7.1'),
+    'C09': dict(
+        text='channel<int> (thread/go.h, real unbuffered_send/recv, buffered paths over the real lock-free ring) with mutex / cv / semaphore as contracts: scenarios 1S(2 values)+1R and 2S+1R unbuffered (quick), 2S+2R and buffered '
+             'capacity 1/2 (thorough): every value whose send returned true is received exactly once, nothing else is received, per-sender order, failures only by timeout/close, and in a stuck end state a blocked sender and a blocked '
+             'receiver never coexist (buffered: no receiver blocked with an item queued, no sender blocked with a free slot).',
+        note='Found and fixed (13935a3): with one receiver and two senders unbuffered_send overwrote a value still in the hand-off slot (send(1) returned true, 1 was never delivered) - confirmed on the live runtime.  '
+             'Cooperative scheduling with symbolic timeouts; select() and multi-vCPU pre-emption inside go.h are outside.',
+        technique='bounded-context-switch sequentialisation of the real code (ir2c --thread) + CBMC, sync primitives as contracts', design_ref='DESIGN.md §3 C09, §7.1'),
 }
 
 NOT_APPLICABLE = {p: 'check under construction in this session (see DESIGN.md §3 for the plan); not claimed until its harness passes on the unchanged tree'
